@@ -8,9 +8,10 @@ Full-strength statements (kept visible):
   `BuiltinTableCovers`       — every handled builtin transfers every needed operand at every arity
                                x/tools can produce (min/max are variadic);
   `BuiltinsIdentifiedByType` — the pass recognises builtins as `*ssa.Builtin`, not by name.
-Both are FALSE on the pinned tree (findings F3, F2): the partial theorems below hold on the tree as it
-is, the negation witnesses are proved on a pinned copy of today's table, and the status theorems are
-written so that they hold before and after the proposed fixes but fail on any third state.
+Both were FALSE on the pinned tree 25e32d0 (findings F3, F2) and hold since the repairs 698a6c8 /
+a4d0e93: they are proved below over the regenerated table (`builtin_table_covers`,
+`builtins_identified_by_type`), so a return of either defect makes the kernel reject the build.  The
+negation witness is kept as a theorem about a literal copy of the OLD table.
 -/
 import Argot.Model.BuiltinTable
 import Argot.Gen.T5Builtins
@@ -72,27 +73,19 @@ transfers every operand the property needs to its result. -/
 theorem builtin_table_covers_partial :
     (fixedCases.all fun c => covers T5.handled T5.rows c.1 c.2) = true := by decide
 
-theorem minmax_status_bool :
-    ((coversAllArities T5.rows "min" && coversAllArities T5.rows "max") || pinnedMinMaxDefect T5.rows) = true := by
-  decide
+/-- **T5, variadic min/max (full strength, unbounded in the arity).** The code transfers every
+operand of `min` / `max` to the result at every arity (finding F3, repaired by 698a6c8: a return of
+the exactly-two-operands guard makes `decide` fail here). -/
+theorem builtin_minmax_all_arities :
+    ∀ n, covers T5.handled T5.rows "min" n = true ∧ covers T5.handled T5.rows "max" n = true :=
+  fun n => ⟨coversAllArities_sound (by decide) n, coversAllArities_sound (by decide) n⟩
 
-/-- **T5, variadic min/max.** Either the code transfers every operand at every arity (the
-full-strength statement for min/max, unbounded in the arity), or `builtins.go` has exactly the
-recorded defective shape F3 — any other state of the code breaks this theorem. -/
-theorem builtin_minmax_status :
-    (∀ n, covers T5.handled T5.rows "min" n = true ∧ covers T5.handled T5.rows "max" n = true) ∨
-      pinnedMinMaxDefect T5.rows = true := by
-  have h := minmax_status_bool
-  rw [Bool.or_eq_true, Bool.and_eq_true] at h
-  rcases h with ⟨h1, h2⟩ | h
-  · exact Or.inl fun n => ⟨coversAllArities_sound h1 n, coversAllArities_sound h2 n⟩
-  · exact Or.inr h
+/-- **T5, identification (full strength).** Builtins are recognised through a type assertion to
+`*ssa.Builtin` (finding F2, repaired by a4d0e93). -/
+theorem builtins_identified_by_type : BuiltinsIdentifiedByType := by
+  unfold BuiltinsIdentifiedByType; decide
 
-/-- **T5, identification.** The pass identifies builtins by type (full strength) or — recorded
-finding F2 — by `Value.Name()`. -/
-theorem builtin_identification_status : T5.identifiedByType = true ∨ T5.identifiedByName = true := by decide
-
-/-- full strength from the two status facts (what becomes provable once F3 is repaired). -/
+/-- assembling the full-strength statement. -/
 theorem builtin_table_covers_of_minmax
     (h : ∀ n, covers T5.handled T5.rows "min" n = true ∧ covers T5.handled T5.rows "max" n = true) :
     BuiltinTableCovers T5.handled T5.rows := by
@@ -104,7 +97,12 @@ theorem builtin_table_covers_of_minmax
     · exact (h n).1
     · exact (h n).2
 
-/-! ### negation witnesses on a pinned copy of the table at commit 25e32d0 -/
+/-- **T5 (full strength).** Every handled builtin transfers every operand the property needs, at
+every arity x/tools can produce. -/
+theorem builtin_table_covers : BuiltinTableCovers T5.handled T5.rows :=
+  builtin_table_covers_of_minmax builtin_minmax_all_arities
+
+/-! ### negation witness on a literal copy of the table at the pinned commit 25e32d0 (before 698a6c8) -/
 
 def pinnedHandled : List Handled :=
   [⟨["ssa:wrapnilchk"], none⟩, ⟨["append", "len", "close", "delete", "println", "print", "recover", "cap"], none⟩,
@@ -125,8 +123,9 @@ theorem pinned_not_covers : ¬ BuiltinTableCovers pinnedHandled pinnedRows := by
   exact absurd this (by decide)
 
 #print axioms builtin_table_covers_partial
-#print axioms builtin_minmax_status
-#print axioms builtin_identification_status
+#print axioms builtin_minmax_all_arities
+#print axioms builtins_identified_by_type
+#print axioms builtin_table_covers
 #print axioms pinned_not_covers
 
 end Argot.BuiltinTable
